@@ -104,3 +104,30 @@ func ZZ_C04_loop() { zzLoop(2) }
 // out-of-gas with nothing left, error returns charge 10): the gas counter never grows.
 //zz:workers=16
 func ZZ_C04_transfer_gas() { ZZ_C08_transfer() }
+
+// ZZ_C04_unknown_call_gas: the charge of a host call that has no table entry, through the real
+// dispatcher on the program `ecalli <id>; trap`, for every gas limit 1..40: when the 10 units
+// cannot be paid after the ecalli's own unit (limits 1..10) the invocation is out of gas with the
+// charge applied (balance limit-11 < 0, so the whole limit is reported as used and nothing is left
+// in hand); from limit 12 on it answers WHAT, continues and ends in the trap with limit-12 left.
+//zz:workers=4
+func ZZ_C04_unknown_call_gas() {
+	imm := []uint32{27, 99, 1000, 0xffffffff}[zzvt.Range("identifier", 0, 3)]
+	code := ProgramCode{10, byte(imm), byte(imm >> 8), byte(imm >> 16), byte(imm >> 24), 0}
+	bm := Bitmask{3, 0, 0, 0, 0, 3}
+	prog := &Program{InstructionData: code, Bitmasks: bm}
+	zzvt.Assert(prog.preDecodeBlocks() == ExitContinue, "program-decodes")
+	limit := zzvt.Range("gasLimit", 1, 40)
+	regs := zzSymRegs()
+	h := NewHost(prog, regs, &Memory{Pages: map[uint32]*Page{}}, Gas(limit), HostCallArgs{}, AccumulateOmegas)
+	res := h.HostCall(0, 0)
+	switch {
+	case limit <= 10:
+		zzvt.Assert(res.ExitReason.GetReasonType() == OUT_OF_GAS, "unpayable-unknown-call-is-out-of-gas")
+		zzvt.Assert(h.Interpreter.Gas == Gas(limit-11), "unpayable-unknown-call-leaves-nothing-in-hand")
+	case limit >= 12:
+		zzvt.Assert(res.ExitReason == ExitPanic, "paid-unknown-call-continues")
+		zzvt.Assert(h.Interpreter.Gas == Gas(limit-12), "unknown-call-charged-10")
+		zzvt.Assert(h.Interpreter.Registers[7] == WHAT, "unknown-call-answers-WHAT")
+	}
+}
